@@ -15,6 +15,7 @@ ASSUMPTIONS = ['coeff normalisation is asserted for the autocorrelation of non-z
                'xcorr is exercised on its domain (equal lengths, maxlags <= N-1); rejecting unequal lengths is not a violation',
                'tolerance rtol=1e-9 (+1e-12 of the data energy absolute)']
 RTOL = 1e-9
+SINGLE_RTOL = 1e-5        # float32 / complex64 records may be correlated in single precision
 NORMS = ['biased', 'unbiased', None]
 
 
@@ -61,6 +62,7 @@ def shards(tier):
             out.append(('corrmtx', name, n))
     for n in ([6, 9] if q else [6, 9, 16, 33]):
         out.append(('pcm', n))
+        out.append(('single', n))
     return out
 
 
@@ -114,9 +116,9 @@ def run_shard(desc, R, tier):
             for ml in list(range(n)) + [None]:
                 for norm in NORMS + ['coeff']:
                     eval_point({'kind': 'xcorr', 'x': x, 'y': None, 'maxlags': ml, 'norm': norm, 'aslist': False}, R)
-    elif kind == 'pcm':
+    elif kind in ('pcm', 'single'):
         n = desc[1]
-        recs = A.pcm(n) + A.pcm64(n)
+        recs = A.pcm(n) + A.pcm64(n) if kind == 'pcm' else A.single(A.gen_real(n), 2) + A.single(A.gen_cplx(n), 2)
         for nx, x in recs:
             for ml in [0, 1, n // 2, n - 1, None]:
                 for norm in NORMS + ['coeff']:
@@ -145,8 +147,7 @@ def run_shard(desc, R, tier):
 
 def _prom(a):
     """The mathematical value of integer samples (no wrap-around): promote to float64."""
-    a = np.asarray(a)
-    return a.astype(float) if a.dtype.kind in 'iub' else a
+    return A.prom(a)
 
 
 def _dt(*arrs):
@@ -173,6 +174,10 @@ def eval_point(pt, R):
         yy = x if y is None else y
         energy = float(np.sum(np.abs(_prom(x)) ** 2) + np.sum(np.abs(_prom(yy)) ** 2))
         feats = {'norm': str(norm), 'dtype': _dt(x, y)}
+        sg = A.is_single(x) or A.is_single(yy)
+        rtol, atf, ptol = (SINGLE_RTOL, SINGLE_RTOL, 1e-4) if sg else (RTOL, 1e-12, 1e-9)
+        if sg:
+            feats['dtype'] += '-single'
         if kind == 'cross':
             feats['lens'] = 'x<y' if len(x) < len(y) else ('x>y' if len(x) > len(y) else 'x=y')
         if norm == 'coeff' and not np.any(np.asarray(x) != 0):
@@ -190,18 +195,18 @@ def eval_point(pt, R):
         except Exception as e:
             R.viol(kind, dict(feats, exc=type(e).__name__), pt, repr(e), ref, 'CORRELATION raised inside its domain')
             return
-        atol = 1e-12 * max(energy, 1e-300) if norm != 'coeff' else 1e-12
-        R.check(close(obs, ref, RTOL, atol), kind, feats, pt, obs, ref,
+        atol = atf * max(energy, 1e-300) if norm != 'coeff' else atf
+        R.check(close(obs, ref, rtol, atol), kind, feats, pt, obs, ref,
                 'CORRELATION != sum_n x[n+k] conj(y[n]) / divisor (shorter input zero padded)', outs=(obs,), err=relerr(obs, ref, atol))
         if kind == 'auto' and norm == 'coeff' and len(obs) > 0:
-            R.check(abs(obs[0] - 1.0) <= 1e-12, 'auto', dict(feats, sub='lag0'), pt, obs[0], 1.0, 'coeff autocorrelation is not 1 at lag 0')
+            R.check(abs(obs[0] - 1.0) <= atf, 'auto', dict(feats, sub='lag0'), pt, obs[0], 1.0, 'coeff autocorrelation is not 1 at lag 0')
         if kind == 'auto' and norm == 'biased' and ml is None and obs.shape == ref.shape:
             r0 = float(np.real(obs[0]))
             m2 = float(np.mean(np.abs(_prom(x)) ** 2))
-            ok = abs(r0 - m2) <= 1e-9 * max(m2, 1e-300) and np.all(np.abs(obs) <= r0 * (1 + 1e-9) + 1e-300)
+            ok = abs(r0 - m2) <= ptol * max(m2, 1e-300) and np.all(np.abs(obs) <= r0 * (1 + ptol) + 1e-300)
             T = rc.toeplitz_herm(obs)
             ev = np.linalg.eigvalsh(T) if len(obs) > 0 else np.array([0.0])
-            ok = ok and float(ev.min()) >= -1e-9 * max(r0, 1e-300)
+            ok = ok and float(ev.min()) >= -ptol * max(r0, 1e-300)
             R.check(ok, 'auto_psd', feats, pt, [r0, float(ev.min())], [m2, 0.0],
                     'biased autocorrelation: r0 != mean|x|^2, |r[k]| > r0 or Toeplitz matrix not positive semi-definite')
     elif kind == 'xcorr':
@@ -235,8 +240,12 @@ def eval_point(pt, R):
             R.viol('xcorr', dict(feats, exc=type(e).__name__), pt, repr(e), ref, 'xcorr raised inside its domain')
             return
         energy = float(np.sum(np.abs(_prom(x)) ** 2) + np.sum(np.abs(_prom(yy)) ** 2))
-        atol = 1e-12 * max(energy, 1e-300) if norm != 'coeff' else 1e-12
-        R.check(close(obs, ref, RTOL, atol), 'xcorr', feats, pt, obs, ref,
+        sg = A.is_single(x) or A.is_single(yy)
+        rtol, atf = (SINGLE_RTOL, SINGLE_RTOL) if sg else (RTOL, 1e-12)
+        if sg:
+            feats['dtype'] += '-single'
+        atol = atf * max(energy, 1e-300) if norm != 'coeff' else atf
+        R.check(close(obs, ref, rtol, atol), 'xcorr', feats, pt, obs, ref,
                 'xcorr != [conj(r_yx[k]) at -k ... r_xy[k] at +k]', outs=(obs,), err=relerr(obs, ref, atol))
         R.check(lags.shape == reflags.shape and np.array_equal(lags, reflags), 'xcorr_lags', feats, pt, lags, reflags,
                 'lags vector is not -maxlags..maxlags')
@@ -244,7 +253,7 @@ def eval_point(pt, R):
         x = np.asarray(pt['x'])
         m = int(pt['m'])
         meth = pt['method']
-        feats = {'method': meth, 'dtype': _dt(x)}
+        feats = {'method': meth, 'dtype': _dt(x) + ('-single' if A.is_single(x) else '')}
         R.point(pt)
         ref = rc.datamatrix(_prom(x), m, meth)
         R.calls()
